@@ -85,9 +85,13 @@ CLAIMS['C09'] = ('proof', 'Lean 4 theorems (quadrature duality, adjoint of the p
 CLAIMS['C11'] = ('proof', 'Lean 4 theorems on a transcription of v_parallel_advection_eval_step (three boundary modes, wrap loops with termination) + exact-rational correspondence',
     'vpar_step_formula, vpar_boundary_rule (FEQ r foot / 0 / interpolant at the periodic image inside [vMin,vMax]), vpar_wrap_terminates, vpar_zero_shift_identity, vpar_linear_inside; equilibrium values '
     'are tagged in the model and compared with the real f_eq; grid-level wiring clause is C05. Exact family: feet exactly on vMin/vMax/nodes and +-1 ulp.', NOTE_COMMON, 'DESIGN.md 4/C11')
-CLAIMS['C12'] = ('other', 'partial proof in Lean 4 (decision logic and algebra of both time schemes over abstract evaluators) + exact-rational correspondence + numerical tests for the analytic clauses',
-    'pol_heun_formula, pol_boundary_rule, pol_impl_feet_in_domain, pol_constant_potential_identity, pol_rigid_rotation, pol_impl_fixed_point_stops, pol_impl_terminates_partial (under geometric decrease; full clause '
-    'kept as pol_impl_terminates_statement). "Explicit and implicit agree to third order in dt" and termination for arbitrary data are analytic: measured as tests (order 2.9-3.2), not proved.',
+CLAIMS['C12'] = ('proof', 'Lean 4 theorems on a transcription of both time schemes over abstract evaluators (decision logic, algebra, the analytic clauses under an explicit Lipschitz hypothesis) + exact-rational correspondence + independent numerical oracle',
+    'Props/C12.lean: pol_heun_formula, pol_boundary_rule, pol_impl_feet_in_domain, pol_constant_potential_identity, pol_rigid_rotation, pol_impl_fixed_point_stops, pol_impl_terminates_partial. Props/C12Extra.lean (12, + Lemmas/PolOrder, PolOrderModel): the two '
+    'analytic clauses - heun_vs_trapezoid_third_order (|foot_E - foot_I| <= L^2 M |dt|^3 / 4 for an L-Lipschitz drift bounded by M, any sign of dt, any real normed space), heun_vs_converged_iteration / heun_vs_every_iterate (the same for the iterate the stop rule returns: '
+    '+ q tol/(1-q), resp. L^2 M |dt|^3/(4(1-q)) for every iterate from the second on, q = |dt| L / 2), trapezoid_iteration_contracts / _terminates(_node) (explicit iteration count), trapezoid_fixed_point_exists (Banach); tied to the model: model_iteration_eq '
+    '(the model\'s sweep, theta modulo included, is the trapezoid map), model_heun_eq, pol_impl_terminates_of_contraction (for q < 1 the MODEL\'s implicit step returns for some fuel, clipping and modulo included, over any Archimedean field), pol_expl_impl_third_order. '
+    'The hypotheses (Lipschitz drift, periodic evaluators) are about the abstract evaluators, not proved for the splines; without contraction the real while loop need not end (no iteration cap: observation). The correspondence runs both schemes at Q on the floats of the code; '
+    'the independent oracle is a vectorised numpy implementation with scipy splines (dt-scaling of the difference measured: order 2.9-3.2).',
     NOTE_COMMON + ' The implicit model takes fuel and rounds carried iterates to 2^-80 (exact rationals grow exponentially).', 'DESIGN.md 4/C12')
 CLAIMS['C17'] = ('proof', 'Lean 4 theorems (local weights are slices of the global ones, sum over ranks in any order = serial quadrature, replicated layouts, closed forms for f=1, min/max of blocks, slot index) + exact-rational correspondence',
     '19 theorems incl. local_weights_are_global_slices, local_axes_are_layout_ranges, sum_over_ranks_eq_global (List.Perm), sum_over_ranks_replicated, trapezoid_volume_of_one(_3d,_ke), min_max_of_blocks, '
@@ -140,7 +144,9 @@ ADDENDA = {
     'C04': ' Tie by TRANSLATION as well: harness/translate_pure.py regenerates Generated/GridGen.lean from Grid.setLayout / saveGridValues / freeGridSave / restoreGridValues (statements in source order, over a state that also records which layout self._layout is and what self._f views) on every run and Props/C04Gen.lean proves gen_step_eq / gen_run_eq (generated state machine = model on every reachable state, view invariant kept) and source_history_behaves_like_global_array.',
     'C01': ' Since the repair of F15 over-decomposed configurations (ranks owning empty blocks) are part of the correspondence.',
     'C20': ' Tie by TRANSLATION as well: harness/translate_pure.py regenerates Generated/ProcGridGen.lean (both functions of process_grid.py, every while loop a fuel-recursive function over the record of all locals, / in exact rationals) on every run and Props/C20Gen.lean proves gen_from_max_eq / gen_procGridFromMax_eq / gen_procGrid_eq (generated = model for all inputs with max_proc1, size >= 1 and every sufficient fuel) and gen_procgrid_spec (termination, validity, RuntimeError iff no factorisation, stated on the generated function).',
-    'C07': ' Tie by TRANSLATION for the binary search: harness/translate_pure.py regenerates Generated/FindSpanGen.lean from nu_find_span on every run and Props/C07Gen.lean proves gen_find_span_eq / gen_find_span_correct (the generated span search returns what the model returns; terminates and finds the containing cell on sorted knots); targets basisfuns / eval1d regenerate nu_basis_funs, nu_basis_funs_1st_der and nu_eval_spline_1d_scalar and Props/C07Gen2.lean proves gen_basis_funs_eq, gen_basis_funs_1st_der_eq, gen_eval_spline_1d_eq/_total (generated kernels = model for every knot vector, degree and point).',
+    'C07': ' Tie by TRANSLATION for the binary search: harness/translate_pure.py regenerates Generated/FindSpanGen.lean from nu_find_span on every run and Props/C07Gen.lean proves gen_find_span_eq / gen_find_span_correct (the generated span search returns what the model returns; terminates and finds the containing cell on sorted knots); targets basisfuns / eval1d regenerate nu_basis_funs, nu_basis_funs_1st_der and nu_eval_spline_1d_scalar and Props/C07Gen2.lean proves gen_basis_funs_eq, gen_basis_funs_1st_der_eq, gen_eval_spline_1d_eq/_total (generated kernels = model for every knot vector, degree and point); target cueval regenerates the cubic-uniform kernels (cu_find_span with int() as truncation toward zero, cu_basis_funs, cu_basis_funs_1st_der, cu_eval_spline_1d_scalar) and Props/C07Gen3.lean proves gen_cu_*_eq and gen_cu_eval_eq_general_path (generated fast path = general-path model on the uniform knots, inside the domain).',
+    'C10': ' Tie by TRANSLATION for the kernel: translate_pure.py --only flux regenerates Generated/FluxGen.lean from flux_advection (2-D/3-D arrays, augmented assignment) and Props/C10Gen.lean proves gen_flux_advection_eq / _sum / gen_flux_step_formula (generated triple loop = model = closed form, other entries untouched).',
+    'C11': ' Tie by TRANSLATION: translate_pure.py --only vpar regenerates Generated/VParGen.lean from general_v_parallel_advection_eval_step (three boundary modes, enumerate, two while loops with fuel, f_eq and the spline evaluation as uninterpreted functions) and Props/C11Gen.lean proves gen_vpar_eq (generated = model boundary rule, nothing else written), gen_vpar_fEq_null, gen_vpar_other_bound, gen_vpar_periodic_total / _terminates (fuel N+1 is exactly the model\'s).',
     'C13': ' Props/C13Extra.lean: fd_converges_with_order (the analytic clause, via Taylor with Lagrange remainder), fd_error_explicit, fd_converges_uniformly, pargrad_converges_with_order.',
     'C18': ' Props/C18Extra.lean: constants_order_independent (full clause), constants_success_iff_resolvable, constants_run_is_solution.',
     'C06': ' Props/C06Traces.lean: handler_traces_projection (for EVERY handler, route map and sequence of transposes the predicted per-rank traces are the projections of one explicit event list), directTrace_members_agree, early_exit_consistent, handler_transposes_never_deadlock; Props/C06SwapperTraces.lean: the same for the LayoutSwapper (swapper_traces_projection, crossTrace_members_agree, swapper_transposes_never_deadlock) under CommOK (the constructor chose its communicators; proved for the driver swapper). early_exit_old_inconsistent / swapper_early_exit_inconsistent are the kernel-checked witnesses of the defects F15 / F16b found by this proof attempt and repaired in /repo. Props/C06Extra.lean: route_deterministic (any two iteration orders give the same routes/distances/connectedness for distinct names), route_canonical (graph distance, lexicographically least shortest path), route_nodup_needed.',
